@@ -264,6 +264,7 @@ func (p *IdP) issued_exp(tok string) (t time.Time) {
 func genC02(r *Rng, tier string, idx int) *Plan {
 	p := &Plan{SchedSeed: r.U64(), Mode: "byzantine"}
 	p.Spec = genSpec(r, genOpts{Filters: 1, AllowRedis: true})
+	p.Spec.HandlerMode = r.Chance(0.25)
 	k := &p.Spec.IdPs[0].Knobs
 	k.Refresh = []string{"static", "rotate"}[r.Intn(2)]
 	k.IDTokenTTL = []int{60, 300}[r.Intn(2)]
